@@ -25,10 +25,6 @@ theorem fop32_scalar {r : Option Nat} {v : Cell} (h : fop32 r = .ok v) : v.isSca
   cases r <;> simp [fop32] at h; subst h; rfl
 theorem fop64_scalar {r : Option Nat} {v : Cell} (h : fop64 r = .ok v) : v.isScalar = true := by
   cases r <;> simp [fop64] at h; subst h; rfl
-theorem chk_map_scalar {x : Res Int} {f : Int → Cell} (hf : ∀ n, (f n).isScalar = true) {v : Cell}
-    (h : x.map f = .ok v) : v.isScalar = true := by
-  cases x <;> simp [Except.map] at h; subst h; exact hf _
-
 theorem add_scalar {a b : Cell} {v : Cell} (h : add a b = some (.ok v)) : v.isScalar = true := by
   simp only [add] at h
   split at h
@@ -36,9 +32,9 @@ theorem add_scalar {a b : Cell} {v : Cell} (h : add a b = some (.ok v)) : v.isSc
   · split at h <;> simp at h
     · exact fop64_scalar h
     · exact fop32_scalar h
-    · exact chk_map_scalar (fun _ => rfl) h
-    · exact chk_map_scalar (fun _ => rfl) h
-    · exact chk_map_scalar (fun _ => rfl) h
+    · subst h; rfl
+    · subst h; rfl
+    · subst h; rfl
     · subst h; rfl
     · subst h; rfl
 
@@ -709,4 +705,46 @@ theorem length_le_sizeList (vs : List Val) : vs.length ≤ Val.sizeList vs := by
   induction vs with
   | nil => simp [Val.sizeList]
   | cons v vs ih => have := v.size_pos; simp [Val.sizeList]; omega
+
+/-! ### top-level forms used by Props/C16.lean -/
+
+theorem cmp_flat_spec (s t : List Item) (vs vt : List Val)
+    (hs : expandList s = some vs) (ht : expandList t = some vt)
+    (fuel : Nat) (hf : fuelFor vs vt ≤ fuel) :
+    cmp fuel (flatList s) (flatList t) (flatList s).length (flatList t).length
+      = .ok (Val.cmpList vs vt) := by
+  have := (cmp_bridge fuel).1 s t [] [] vs vt hs ht (by simpa [fuelFor] using hf)
+  simpa using this
+
+theorem eq_flat_spec (s t : List Item) (vs vt : List Val)
+    (hs : expandList s = some vs) (ht : expandList t = some vt)
+    (fuel : Nat) (hf : fuelFor vs vt ≤ fuel) :
+    eq fuel (flatList s) (flatList t) (flatList s).length (flatList t).length
+      = .ok (decide (Val.cmpList vs vt = 0)) := by
+  have := (eq_bridge fuel).1 s t [] [] vs vt hs ht (by simpa [fuelFor] using hf)
+  simpa using this
+
+theorem okList_of_expand {s : List Item} {vs : List Val} (hs : expandList s = some vs)
+    (hn : Val.noNaNList vs = true) : Val.okList vs = true :=
+  okList_of_leaves_noNaN vs (expandList_leaves s vs hs) hn
+
+/-- `rtosc_arg_vals_cmp` on two one-value lists -/
+theorem cmp_single_value (a b : Cell) (ha : a.isScalar = true) (hb : b.isScalar = true)
+    (fuel : Nat) (hf : 4 ≤ fuel) : cmp fuel [a] [b] 1 1 = .ok (cmpScalar a b) := by
+  have h := cmp_flat_spec [.val a] [.val b] [.sc a] [.sc b]
+    (by simp [expandList, Item.expand, ha]) (by simp [expandList, Item.expand, hb]) fuel
+    (by simpa [fuelFor, Val.sizeList, Val.size] using hf)
+  rw [show (flatList [Item.val a]) = [a] from rfl, show (flatList [Item.val b]) = [b] from rfl] at h
+  simp only [List.length_cons, List.length_nil, Nat.zero_add] at h
+  rw [h]
+  simp only [Val.cmpList, Val.cmp, Val.head]
+  by_cases e : cmpScalar a b = 0 <;> simp [e]
+
+/-- a proper prefix is smaller in `lexCmp`, whatever follows -/
+theorem lexCmp_prefix (a : Bytes) (x : UInt8) (r : Bytes) :
+    lexCmp a (a ++ x :: r) = -1 ∧ lexCmp (a ++ x :: r) a = 1 := by
+  induction a with
+  | nil => simp [lexCmp]
+  | cons y ys ih => simp [lexCmp, ih]
+
 end Rtosc.ArgVal
